@@ -2,6 +2,7 @@ package main
 
 import (
 	"go/types"
+	"sort"
 
 	"golang.org/x/tools/go/ssa"
 )
@@ -190,8 +191,11 @@ func (w *World) isReaderU(f *ssa.Function, depth int) bool {
 					continue
 				}
 				if cp := c.Pkg; cp != nil && !w.mine[cp.Pkg] {
-					// dependency functions on plain values are pure
+					// dependency functions on plain values are pure; listed ones only read their arguments
 					ok := true
+					if w.readOnlyExt != nil && w.readOnlyExt(shortName(c)) {
+						continue
+					}
 					for _, a := range x.Call.Args {
 						if !valueLike(a.Type(), 0) {
 							ok = false
@@ -273,4 +277,46 @@ func (w *World) pureIfaceMethod(it types.Type, m *types.Func) bool {
 	w.pmu.Lock()
 	defer w.pmu.Unlock()
 	return w.pureIfaceMethodU(it, m)
+}
+
+// implementations: the concrete methods behind an interface method of an hcl-lang interface (nil if the
+// interface is not ours or nothing implements it).
+func (w *World) implementations(it types.Type, m *types.Func) []*ssa.Function {
+	nt, ok := it.(*types.Named)
+	if !ok || nt.Obj().Pkg() == nil || !w.mine[nt.Obj().Pkg()] {
+		return nil
+	}
+	iface, ok := it.Underlying().(*types.Interface)
+	if !ok {
+		return nil
+	}
+	w.pmu.Lock()
+	defer w.pmu.Unlock()
+	key := it.String() + "." + m.Name()
+	if r, ok := w.implMemo[key]; ok {
+		return r
+	}
+	var out []*ssa.Function
+	seen := map[*ssa.Function]bool{}
+	for _, T := range w.prog.RuntimeTypes() {
+		if _, isI := T.Underlying().(*types.Interface); isI {
+			continue
+		}
+		if !types.Implements(T, iface) {
+			continue
+		}
+		sel := w.prog.MethodSets.MethodSet(T).Lookup(m.Pkg(), m.Name())
+		if sel == nil {
+			continue
+		}
+		fn := w.prog.MethodValue(sel)
+		if fn == nil || fn.Synthetic != "" || seen[fn] {
+			continue
+		}
+		seen[fn] = true
+		out = append(out, fn)
+	}
+	sort.Slice(out, func(i, j int) bool { return out[i].String() < out[j].String() })
+	w.implMemo[key] = out
+	return out
 }
